@@ -101,8 +101,9 @@ TEXT["C11"] = ("Theorems: reference assignment copies/moves every field and leav
                "involution, iterator arithmetic (+, -, difference, ordering, trichotomy) is that of indices; run tables cover every "
                "parameter exactly once. Correspondence: reference and iterator operations on tracked and trivial types with canaries.")
 TEXT["C12"] = ("Theorems on the standalone element model: construction from a reference copies values and sizes, assignments with fixed and "
-               "varying sizes, move, swap, conversion back to a reference, independence from the source vector. Correspondence: element "
-               "stream (construct/assign/move/swap/compare, allocator propagation) under the ledger allocator and lifetime monitor.")
+               "varying sizes, move, swap, conversion back to a reference, the allocator-extended copy and move constructors (equal and "
+               "unequal allocators), independence from the source vector. Correspondence: element stream (construct/assign/move/swap/"
+               "compare, allocator-extended construction, allocator propagation) under the ledger allocator and lifetime monitor.")
 TEXT["C15"] = ("Theorems: the memcpy shortcut is taken only when the conversion keeps the bytes (then the stored value is the converted "
                "value), otherwise element-wise conversion; lvalue sources are not moved from, rvalue sources are. Correspondence: "
                "emplace matrix (source category x value category x iterator kind) with move counters.")
@@ -111,12 +112,13 @@ TEXT["C17"] = ("Theorems with the fault position universally quantified: a throw
                "throws; construction, reserve, copy construction and move assignment under fault leave every vector and the ledger exactly "
                "as before; copy assignment under fault leaves the source and all other vectors unchanged and the target a valid empty vector "
                "that owns its block (basic guarantee), without ledger errors; and the refinement of whole histories in which any allocation may throw "
-               "and the caller goes on (history_with_allocation_failures): every vector keeps representing a plain sequence. Offset-table leak of lists with VaryingSize: known finding "
+               "and the caller goes on (history_with_allocation_failures): every vector keeps representing a plain sequence; construction and copy "
+               "assignment of a standalone element under fault leave every element, every vector and the ledger as they were. Offset-table leak of lists with VaryingSize: known finding "
                "(C07). Correspondence: systematic fault matrix (every allocation index of every operation) plus random faults, with "
-               "liveness reads afterwards.")
+               "liveness reads afterwards, and the same matrix for every allocating construction/assignment of a ContiguousElement.")
 TEXT["C19"] = ("Theorems on the access model: const operations write nothing of the shared state, copying reads only, so any schedule of const "
-               "operations observes the same values. PARTIAL: memory-model behaviour of real threads cannot be exhibited by the model; "
-               "supported by executing every const operation with the vector, block and table mapped read-only (a write faults) and a "
+               "operations observes the same values; the same for standalone elements (copying a const element never writes it). PARTIAL: memory-model behaviour of real threads cannot be exhibited by the model; "
+               "supported by executing every const operation with the vectors and elements, their blocks and tables mapped read-only (a write faults) and a "
                "TSan run of 16 concurrent readers.")
 TEXT["C20"] = ("Theorems: the list categories partition all lists, constructor dispatch and operation availability are functions of the "
                "category and value-type traits as documented. Correspondence: every cell of the category x value category x allocator matrix "
